@@ -16,6 +16,9 @@ import (
 
 type Input struct {
 	Ops []stor.Op `json:"ops"`
+	// Hide: application names listed in the server's hide-applications setting while the history runs (they are left
+	// out of label listings only; retention and deletion must still reach them)
+	Hide []string `json:"hide,omitempty"`
 	// Fresh: the history runs on a storage of its own (a new directory) instead of the process-wide one, so that it is
 	// the only application the storage has ever seen
 	Fresh bool `json:"fresh,omitempty"`
@@ -51,6 +54,9 @@ func gen(r *rand.Rand, idx int, tier string) Input {
 		ss := stor.RandSeries(r, app, 2+r.Intn(2)+2*(2-napps))
 		all = append(all, ss)
 		flat = append(flat, ss...)
+	}
+	if r.Intn(4) == 0 {
+		in.Hide = []string{all[r.Intn(napps)][0].App}
 	}
 	// data must be in the past for the retention guard (now ~ 2026-09): pick the base before 2026
 	var base int64
@@ -206,6 +212,8 @@ func run(in Input) lib.Result {
 		defer fs.Destroy()
 		st = fs
 	}
+	st.Cfg.HideApplications = in.Hide
+	defer func() { st.Cfg.HideApplications = nil }()
 	hops := []string{}
 	crash := ""
 	feat := map[string]interface{}{}
@@ -239,6 +247,7 @@ func run(in Input) lib.Result {
 	}
 	feat["rejected_puts"] = rejected
 	feat["fresh_single_app"] = in.Fresh
+	feat["hidden_app"] = len(in.Hide) > 0
 	return lib.Result{
 		Coq:        "{| c_ops := " + lib.List(hops) + " |}",
 		NonTrivial: (cnt["delete"] > 0 && reingestAfterDelete) || cnt["retention"] > 0,
